@@ -85,6 +85,21 @@ def scnStep (op impl : String) : StepOut := Id.run do
             fails := fails ++ [("idle_not_early", "-", s!"{sd}: closed {o.closedAt - start} ns after the idle start, period {period}")]
           if o.closedAt > start + period + o.pto + timerGranularity then
             fails := fails ++ [("idle_not_late", "-", s!"{sd}: closed {o.closedAt - start} ns after the idle start, period {period}, PTO {o.pto}")]
+          -- ghost for the idle start that does not rely on the connection's own bookkeeping (RFC 9000 10.1): the
+          -- window restarts at the first ack-eliciting packet sent after the last packet received (`d1`, from the
+          -- endpoint's sent-packet log); `d1c` is the first such packet that carries an ack-eliciting control frame
+          let d1 := field impl (sd ++ ".d1")
+          let d1c := field impl (sd ++ ".d1c")
+          let sh : Int := 1000000000000
+          let ghostStart := if d1 == "-" || d1 == "" then o.lr else intOf d1 + sh
+          if o.closedAt > ghostStart + period + o.pto + timerGranularity then
+            -- known finding: a packet whose only ack-eliciting frames are STREAM frames, sent through
+            -- sendPackedCoalescedPacket (PTO probe), does not restart the window; a later control frame
+            -- (keep-alive PING) then restarts it
+            let cls := if d1 ≠ d1c && o.fae ≠ 0 && o.fae > ghostStart && (d1c == "-" || o.fae ≤ intOf d1c + sh) &&
+                          o.closedAt ≤ start + period + o.pto + timerGranularity
+                       then "stream_only_probe_does_not_restart_idle" else "-"
+            fails := fails ++ [("idle_not_late", cls, s!"{sd}: closed {o.closedAt - ghostStart} ns after the first ack-eliciting packet sent since the last packet received, period {period}, PTO {o.pto}")]
           -- the period is the negotiated one
           let want := if sd == "c" then negotiatedIdle idleNs sidleNs else negotiatedIdle sidleNs idleNs
           if cause ≠ "hsdead" && cause ≠ "hsstall" && o.it ≠ want then
